@@ -403,10 +403,14 @@ func sampleOf(r runOut) map[string]interface{} {
 	if len(s.History) > 0 {
 		var h []string
 		for _, o := range s.History {
+			k := o.Kind
+			if o.Sub > 0 {
+				k += fmt.Sprintf("(statement %d)", o.Sub-1)
+			}
 			if o.Fault != nil {
-				h = append(h, fmt.Sprintf("%s[writer %s @%d]", o.Kind, o.Fault.Kind, o.Fault.At))
+				h = append(h, fmt.Sprintf("%s[writer %s @%d]", k, o.Fault.Kind, o.Fault.At))
 			} else {
-				h = append(h, o.Kind)
+				h = append(h, k)
 			}
 		}
 		m["history"] = h
